@@ -170,6 +170,7 @@ def verify(contract, registry, variant=None):
         rep.paths = len(outs)
         rep.outcomes = outs
         rep.assumptions |= ex.assumptions
+        rep.abstract_calls = ex.abstract_calls
         for i, o in enumerate(outs):
             ex.prefix = '%s/path%d' % (base_prefix, i + 1)
             ex._obn = {}
@@ -182,7 +183,9 @@ def verify(contract, registry, variant=None):
                 if cid <= watermark and cid not in mod_ids:
                     ex.oblige(o.st, False, 'frame(writes cell outside modifies)', fsrc.node)
             allowed = contract.raises(old, a)
-            if o.kind == 'raise':
+            if o.kind == 'raise' and o.val.exc in getattr(contract, 'raises_in_ensures', ()):
+                pass            # the condition of this exception is stated by the ensures clauses
+            elif o.kind == 'raise':
                 cond = allowed.get(o.val.exc, False)
                 ex.oblige(o.st, cond, 'raise.%s-only-when-specified' % o.val.exc, fsrc.node)
             else:
